@@ -1,4 +1,5 @@
 \* the code as it is (FixH4 = FALSE): RevertNeverFails must be violated (H4)
+\* measured: RevertNeverFails violated after ~100 states: deploy ; zero write to an absent slot ; revert
 CONSTANTS
   Users = {"c1"}
   Sys = {}
